@@ -887,7 +887,7 @@ class Engine:
             return [(st, SBuiltin(label, ext, self_val=v))]
         raise Unsupported(f"attribute {attr} on {type(v).__name__} at {self.loc(node)}")
 
-    def typed_container(self, st, w):
+    def typed_container(self, st, w, deep=False):
         """well-typedness of stored data, stated so that it is usable under quantifiers: the keys (elements) of a container read
         from a field annotated dict[K, V] / set[K] / list[V] carry the tag of K (V).  Only tags are constrained (shallow)."""
         ty = w.ty
@@ -898,20 +898,23 @@ class Engine:
             return
         st.ghost[key] = True
         simple = ("int", "str", "bool", "class", "none")
+        if deep:
+            simple = simple + ("tuple", "union")
+        sh = not deep  # deep: parameters of the verified function - element records are constrained with their field shapes
         if ty.kind in ("dict", "set"):
             kty = ty.k if ty.kind == "dict" else ty.v
             k = sym.fresh_val("tk")
             dom = st.dom(w.t)
             if kty.kind in simple:
-                st.assume(sym.forall_pat([k], z3.Implies(z3.Select(dom, k), sym.type_constraint(k, kty, self.reg, shallow=True)), z3.Select(dom, k)))
+                st.assume(sym.forall_pat([k], z3.Implies(z3.Select(dom, k), sym.type_constraint(k, kty, self.reg, shallow=sh)), z3.Select(dom, k)))
             if ty.kind == "dict" and ty.v.kind in simple + ("dict", "set", "list"):
                 m = st.cmap(w.t)
-                st.assume(sym.forall_pat([k], z3.Implies(z3.Select(dom, k), sym.type_constraint(z3.Select(m, k), ty.v, self.reg, shallow=True)), z3.Select(m, k)))
+                st.assume(sym.forall_pat([k], z3.Implies(z3.Select(dom, k), sym.type_constraint(z3.Select(m, k), ty.v, self.reg, shallow=sh)), z3.Select(m, k)))
         else:
             i = sym.fresh_int("ti")
             sq = st.cseq(w.t)
             if ty.v.kind in simple:
-                st.assume(sym.forall_pat([i], z3.Implies(z3.And(i >= 0, i < st.clen(w.t)), sym.type_constraint(z3.Select(sq, i), ty.v, self.reg, shallow=True)), z3.Select(sq, i)))
+                st.assume(sym.forall_pat([i], z3.Implies(z3.And(i >= 0, i < st.clen(w.t)), sym.type_constraint(z3.Select(sq, i), ty.v, self.reg, shallow=sh)), z3.Select(sq, i)))
 
     def _owner_of(self, ci, attr):
         """name of the class that actually defines method attr (for contract keys)"""
